@@ -19,6 +19,11 @@
 (*      moment a listener of thread `who` is about to raise, [k |->         *)
 (*      "teardown", by, victim, intr] a disconnect(immediate) issued by the *)
 (*      dying thread `by` while `victim` holds the slot.                    *)
+(*  (f) the disconnect that ends a thread's own error handling             *)
+(*      (Connection._handle_exception) never takes down a connection that  *)
+(*      belongs to another thread and has not been disconnected by anybody:*)
+(*      [k |-> "he_teardown", by, victim, intr] is that disconnect at the  *)
+(*      moment it holds the lock, `victim` holding the slot then.          *)
 (* Events: [k |-> "call"|"ret", t, op, r], [k |-> "check", t, active],      *)
 (*   [k |-> "effect", t, what], [k |-> "start", who], [k |-> "io", t],      *)
 (*   [k |-> "disc_point", t] (a disconnect call acquired the lock),         *)
@@ -102,6 +107,10 @@ Step ==
        [] e.k = "teardown" ->
             IF e.by \in DOMAIN beforeRaise /\ e.victim # e.by /\ e.victim \in beforeRaise[e.by] /\ ~e.intr
             THEN Reject("the error handling of a failed connection tore down a connection that had been made before the failure")
+            ELSE AdvK /\ UNCHANGED <<alive, lastIo, past, calls, mustEnd>>
+       [] e.k = "he_teardown" ->
+            IF e.victim # e.by /\ ~e.intr
+            THEN Reject("the error handling of a dying thread disconnected a connection made by another thread in the meantime")
             ELSE AdvK /\ UNCHANGED <<alive, lastIo, past, calls, mustEnd>>
        [] OTHER -> Reject("unknown event")
 
